@@ -478,3 +478,37 @@ def loop_headers_rule(fi, expected, rule, role):
                               witness={"got": g, "confirmed": e})]
         return [unrecognised(rule, fi, role, "loop `%s` (confirmed: `%s`)" % (g, e), l)]
     return [holds(rule, fi, role, "%d loop headers equal the confirmed ranges as linear forms" % len(got), fi.node, nontrivial=False)]
+
+
+# ------------------------------------------------------------------ value of a scalar local at the end of a straight-line block
+def block_value_rule(fi, stmts, name, expected_src, rule, role, node=None, named=None):
+    """Evaluate the statements symbolically (R-TERM fragment: +,-,*,/ over atoms, rational normal form) and compare the final value of
+    `name` with the expression `expected_src`.  EQUAL -> HOLDS whatever the spelling (temporaries, re-association, += chains);
+    DIFFERENT -> VIOLATION (the two are different polynomials over the same atoms); anything opaque -> UNRECOGNISED."""
+    from .terms import TermEval, compare, canon
+    from .core import holds, violation, unrecognised
+    te = TermEval()
+    r = te.run([s for s in stmts if not isinstance(s, (ast.Expr, ast.Pass))] if False else _prefix_until_opaque(stmts))
+    got = te.env.get(name)
+    if got is None:
+        return unrecognised(rule, fi, role, "`%s` is not assigned in the block" % name, node)
+    exp = TermEval().ev(ast.parse(expected_src, mode="eval").body)
+    res = compare(got, exp, te)
+    if res == "EQUAL":
+        return holds(rule, fi, role, "%s == %s" % (name, expected_src), node)
+    if res == "DIFFERENT":
+        return violation(rule, fi, role, "`%s` evaluates to %s, expected %s" % (name, canon(got)[:120], expected_src), node,
+                         witness={"got": canon(got)[:200], "expected": canon(exp)[:200]})
+    return unrecognised(rule, fi, role, "`%s` = %s (outside the arithmetic fragment)" % (name, canon(got)[:120]), node)
+
+
+def _prefix_until_opaque(stmts):
+    out = []
+    for s in stmts:
+        if isinstance(s, (ast.Assign, ast.AugAssign, ast.If)):
+            out.append(s)
+        elif isinstance(s, (ast.Expr, ast.Pass)):
+            continue
+        else:
+            break
+    return out
